@@ -414,6 +414,9 @@ def run_history(h, workdir):
                         elif (float(getattr(j.dataobj, 'slope', 1)), float(getattr(j.dataobj, 'inter', 0))) != \
                                 (float(getattr(prox, 'slope', 1)), float(getattr(prox, 'inter', 0))):
                             sig = 'own_file_scaling_changed'
+                    # since 4923d550 a saver whose array was mapped from the target holds the written copy afterwards
+                    if s in built and not (isinstance(img.dataobj, np.ndarray) and mapped_file(img.dataobj) is not None):
+                        built.pop(s, None)
                     arr_is_map = s in built and isinstance(img.dataobj, np.ndarray) and built[s][0] == f
                     if arr_is_map and np.dtype(j.get_data_dtype()).newbyteorder('=') != np.dtype(img.dataobj.dtype).newbyteorder('='):
                         # the image's own array is a memory map of the file just rewritten with another layout:
